@@ -7,15 +7,178 @@ pub mod check;
 pub mod codecs;
 pub mod driver;
 pub mod entry;
+pub mod live;
 pub mod model;
+pub mod monitors;
 pub mod panics;
+pub mod registry;
 pub mod rng;
 pub mod val;
+
+use driver::{RunCfg, Tier};
+use serde_json::json;
+use std::time::Duration;
 
 #[cfg(not(miri))]
 #[global_allocator]
 static GLOBAL: alloc::Counting = alloc::Counting;
 
+fn usage() -> ! {
+    eprintln!(
+        "usage: fcverif <Cnn> [--tier quick|thorough|miri] [--seed N] [--profile NAME] [--out FILE]\n\
+         \x20      [--threads N] [--entry LABEL] [--what WORKLOAD] [--hist N] [--verbose] [--watchdog SECS]\n\
+         \x20      fcverif --list"
+    );
+    std::process::exit(64);
+}
+
 fn main() {
-    println!("fcverif");
+    let args: Vec<String> = std::env::args().skip(1).collect();
+    if args.is_empty() {
+        usage();
+    }
+    let reg = registry::registry();
+    if args[0] == "--list" {
+        for d in &reg {
+            println!("{}\t{} forms\t{:?}", d.label, d.forms.len(), d.flags);
+        }
+        return;
+    }
+    let prop = args[0].clone();
+    let mut tier = Tier::Quick;
+    let mut seed: u64 = 0;
+    let mut profile = String::from("unknown");
+    let mut out: Option<String> = None;
+    let mut threads = std::thread::available_parallelism().map(|n| n.get()).unwrap_or(4);
+    let mut only_entry = None;
+    let mut only_what = None;
+    let mut only_hist = None;
+    let mut verbose = false;
+    let mut watchdog = 0u64;
+    let mut i = 1;
+    while i < args.len() {
+        let a = args[i].as_str();
+        let mut val = || {
+            i += 1;
+            args.get(i).cloned().unwrap_or_else(|| usage())
+        };
+        match a {
+            "--tier" => {
+                tier = match val().as_str() {
+                    "quick" => Tier::Quick,
+                    "thorough" => Tier::Thorough,
+                    "miri" => Tier::Miri,
+                    _ => usage(),
+                }
+            }
+            "--seed" => seed = val().parse().unwrap_or_else(|_| usage()),
+            "--profile" => profile = val(),
+            "--out" => out = Some(val()),
+            "--threads" => threads = val().parse().unwrap_or_else(|_| usage()),
+            "--entry" => only_entry = Some(val()),
+            "--what" => only_what = Some(val()),
+            "--hist" => only_hist = Some(val().parse().unwrap_or_else(|_| usage())),
+            "--watchdog" => watchdog = val().parse().unwrap_or_else(|_| usage()),
+            "--verbose" => verbose = true,
+            _ => usage(),
+        }
+        i += 1;
+    }
+    if cfg!(miri) {
+        threads = 1;
+    }
+    let defs = monitors::props();
+    let Some(def) = defs.iter().find(|d| d.id == prop) else {
+        eprintln!("unknown property {prop}");
+        std::process::exit(64);
+    };
+    let plan = monitors::Plan { tier, seed, reg: &reg, only_entry, only_what, only_hist };
+    let mut jobs = (def.jobs)(&plan);
+    let replaying = plan.only_entry.is_some() || plan.only_what.is_some() || plan.only_hist.is_some();
+    jobs.retain(|j| {
+        plan.only_entry.as_ref().map_or(true, |e| &j.entry == e)
+            && plan.only_what.as_ref().map_or(true, |w| &j.what == w)
+            && plan.only_hist.map_or(true, |h| j.hist_no == h)
+    });
+    // longest-looking jobs first would need knowledge we do not have; interleave entries instead
+    let cfg = RunCfg {
+        prop: def.id,
+        seed,
+        tier,
+        profile: profile.clone(),
+        threads,
+        watchdog: Duration::from_secs(if watchdog > 0 {
+            watchdog
+        } else {
+            match tier {
+                Tier::Quick => 900,
+                Tier::Thorough => 5400,
+                Tier::Miri => 7200,
+            }
+        }),
+        verbose,
+    };
+    panics::install();
+    let res = driver::run_jobs(&cfg, jobs);
+    let rep = res.report;
+    let mut missing: Vec<String> = Vec::new();
+    if !replaying {
+        for c in (def.required)(&plan) {
+            if !rep.covered.contains(&c) {
+                missing.push(c);
+            }
+        }
+    }
+    let violations: Vec<_> = rep.violations.values().map(|v| v.to_json()).collect();
+    let result = json!({
+        "property": def.id,
+        "tier": tier.name(),
+        "seed": seed,
+        "profile": profile,
+        "jobs": res.jobs,
+        "evaluations": rep.evaluations,
+        "distinct_nontrivial": rep.nontrivial.len(),
+        "nontrivial_hashes": if rep.nontrivial.len() <= 200_000 { rep.nontrivial.iter().map(|h| format!("{:x}", h)).collect::<Vec<_>>() } else { vec![] },
+        "counters": rep.counters,
+        "samples": rep.samples,
+        "violations": violations,
+        "violation_events": rep.violation_count,
+        "notes": rep.notes,
+        "entries": rep.entries,
+        "covered": rep.covered.len(),
+        "missing_coverage": missing,
+        "digest": format!("{:016x}", rep.digest),
+        "rule": def.rule,
+        "assumptions": def.assumptions,
+        "wall_s": res.wall_s,
+    });
+    let text = serde_json::to_string_pretty(&result).unwrap();
+    match &out {
+        Some(p) => std::fs::write(p, text).expect("write result file"),
+        None => {
+            let mut brief = result.clone();
+            brief.as_object_mut().unwrap().remove("nontrivial_hashes");
+            println!("{}", serde_json::to_string_pretty(&brief).unwrap());
+        }
+    }
+    if !rep.violations.is_empty() {
+        for v in rep.violations.values() {
+            eprintln!("violation {} [{}]: {}", v.sig, v.profile, v.msg);
+            if replaying {
+                for l in &v.log {
+                    eprintln!("    {l}");
+                }
+            }
+        }
+        std::process::exit(1);
+    }
+    if !rep.notes.is_empty() || !missing.is_empty() {
+        for n in &rep.notes {
+            eprintln!("inconclusive: {n}");
+        }
+        for m in &missing {
+            eprintln!("inconclusive: coverage class not observed: {m}");
+        }
+        std::process::exit(2);
+    }
 }
